@@ -32,7 +32,7 @@ def reference_functions() -> Set[str]:
     if _REF is None:
         p = os.path.join(os.path.dirname(os.path.abspath(__file__)), "spec", "reference_functions.txt")
         with open(p) as fh:
-            _REF = {ln.strip() for ln in fh if ln.strip() and not ln.startswith("#")}
+            _REF = {ln.split("\t")[0].strip() for ln in fh if ln.strip() and not ln.startswith("#")}
     return _REF
 
 
@@ -61,6 +61,8 @@ def _always_leaves(body: List[ast.stmt]) -> bool:
         return True
     if isinstance(last, ast.If):
         return _always_leaves(last.body) and _always_leaves(last.orelse)
+    if isinstance(last, ast.Try) and not last.finalbody:
+        return (_always_leaves(last.body) or (bool(last.orelse) and _always_leaves(last.orelse))) and all(_always_leaves(h.body) for h in last.handlers)
     return False
 
 
@@ -101,6 +103,14 @@ def _structure(body: List[ast.stmt]) -> List[ast.stmt]:
                 return out
             out.append(st)
             continue
+        if isinstance(st, ast.Try) and _has_return([st]):
+            # a try statement in tail position whose returns are in tail position of its parts: `return e` inside the try body stays inside it
+            if rest or _has_return(st.finalbody) or (st.orelse and _always_leaves(st.body)):
+                raise _Unsupported("try with return not in tail position")
+            nt = ast.Try(body=_structure(st.body), handlers=[ast.copy_location(ast.ExceptHandler(type=h.type, name=h.name, body=_structure(h.body)), h) for h in st.handlers],
+                         orelse=_structure(st.orelse) if st.orelse else [], finalbody=st.finalbody)
+            out.append(ast.copy_location(nt, st))
+            return out
         if isinstance(st, (ast.For, ast.While, ast.Try, ast.With, ast.AsyncFor, ast.AsyncWith, ast.Match)) and _has_return([st]):
             raise _Unsupported("return inside loop / try / with")
         out.append(st)
@@ -435,6 +445,18 @@ class Inliner:
                     elif target is not None:
                         if isinstance(target, ast.Name) and isinstance(v, ast.Name) and v.id == target.id:
                             nn = ast.Pass()  # `x = x`
+                        elif isinstance(target, ast.Tuple) and isinstance(v, ast.Tuple) and len(v.elts) == len(target.elts) and all(isinstance(t_, ast.Name) for t_ in target.elts) \
+                                and not any(isinstance(e_, ast.Starred) for e_ in v.elts):
+                            # a, b = (e1, e2): every element is evaluated before any target is bound
+                            self.counter += 1
+                            tmps = [f"__tup{self.counter}_{i}" for i in range(len(v.elts))]
+                            for tn, e_ in zip(tmps, v.elts):
+                                a_ = ast.Assign(targets=[ast.Name(id=tn, ctx=ast.Store())], value=e_, lineno=st.lineno)
+                                out.append(ast.copy_location(a_, st))
+                            for tn, t_ in list(zip(tmps, target.elts))[:-1]:
+                                a_ = ast.Assign(targets=[copy.deepcopy(t_)], value=ast.Name(id=tn, ctx=ast.Load()), lineno=st.lineno)
+                                out.append(ast.copy_location(a_, st))
+                            nn = ast.Assign(targets=[copy.deepcopy(target.elts[-1])], value=ast.Name(id=tmps[-1], ctx=ast.Load()), lineno=st.lineno)
                         else:
                             nn = ast.Assign(targets=[copy.deepcopy(target)], value=v, lineno=st.lineno)
                     else:
@@ -446,6 +468,14 @@ class Inliner:
                     ni = ast.If(test=t, body=conv(st.body) or [ast.Pass()], orelse=conv(st.orelse))
                     ni._has_ret = True  # type: ignore[attr-defined]
                     out.append(ast.copy_location(ni, st))
+                elif isinstance(st, ast.Try) and _has_return([st]):
+                    hs = []
+                    for h in st.handlers:
+                        ht = _Subst(mapping, rename).visit(copy.deepcopy(h.type)) if h.type is not None else None
+                        hs.append(ast.copy_location(ast.ExceptHandler(type=ht, name=rename.get(h.name, h.name) if h.name else None, body=conv(h.body) or [ast.Pass()]), h))
+                    nt_ = ast.Try(body=conv(st.body) or [ast.Pass()], handlers=hs, orelse=conv(st.orelse), finalbody=[_Subst(mapping, rename).visit(copy.deepcopy(x)) for x in st.finalbody])
+                    nt_._has_ret = True  # type: ignore[attr-defined]
+                    out.append(ast.copy_location(nt_, st))
                 else:
                     out.append(_Subst(mapping, rename).visit(copy.deepcopy(st)))
             return out
@@ -489,7 +519,8 @@ class Inliner:
         if isinstance(st, (ast.FunctionDef, ast.AsyncFunctionDef, ast.ClassDef)):
             return [st]
         # whole-value forms
-        if isinstance(st, ast.Assign) and len(st.targets) == 1 and isinstance(st.value, ast.Call) and isinstance(st.targets[0], ast.Name):
+        if isinstance(st, ast.Assign) and len(st.targets) == 1 and isinstance(st.value, ast.Call) and (isinstance(st.targets[0], ast.Name) or (
+                isinstance(st.targets[0], ast.Tuple) and all(isinstance(t_, ast.Name) for t_ in st.targets[0].elts))):
             r = self._try_expr(st.value)
             if r is None:
                 sp = self._splice(st.value, st.targets[0], False)
@@ -626,6 +657,14 @@ def _append_fallthrough(stmts: List[ast.stmt], mk) -> List[ast.stmt]:
     if isinstance(last, ast.If) and getattr(last, "_has_ret", False):
         last.body = _append_fallthrough([x for x in last.body if not isinstance(x, ast.Pass)] , mk)
         last.orelse = _append_fallthrough(last.orelse, mk)
+        return stmts
+    if isinstance(last, ast.Try) and getattr(last, "_has_ret", False):
+        if last.orelse:
+            last.orelse = _append_fallthrough(last.orelse, mk)
+        else:
+            last.body = _append_fallthrough(last.body, mk)
+        for h in last.handlers:
+            h.body = _append_fallthrough([x for x in h.body if not isinstance(x, ast.Pass)], mk)
         return stmts
     return stmts + [mk()]
 
